@@ -87,6 +87,7 @@ class Layouts:
         self.structs = {}    # name -> [field names]  (tuple structs: '0','1',..)
         self.variant_fields = {}   # (enum, variant) -> [field names] for struct-like variants
         self.sources = {}    # name -> file it came from
+        self.field_types = {}   # (struct name, field) -> type text (first definition)
         self.struct_defs = {}   # name -> [field lists] when several modules define a struct of that name
         self.aliases = {}    # type alias name -> target type text
         self.consts = {}     # (module file stem, NAME) -> literal value (str / int) for simple `const NAME: T = literal;`
@@ -134,6 +135,9 @@ class Layouts:
                 nm = re.match(r'(r#)?(\w+)', it)
                 if not nm: continue
                 names.append(nm.group(2))
+                if kind == 'struct':
+                    tm = re.match(r'(?:r#)?\w+\s*:\s*(.*)$', it, re.S)
+                    if tm: self.field_types.setdefault((name, nm.group(2)), ' '.join(tm.group(1).split()))
                 if kind == 'enum':
                     rest = it[nm.end():].strip()
                     if rest.startswith('{'):
